@@ -122,15 +122,23 @@ Notation EOK := (EmptyOK (fun k : Z => k) orc).
 (* the ghost predicate: (class database, keys of rule_to_strategy, keys of eqv_rule_to_strategy, trace) of a
    state of the searcher model ARE those of a RuleDB reached by an add_hist history whose steps are the trace's
    ruledb.add events (pruning databases only: RuleDBForest keeps no such stores) *)
+(* PROVENANCE of a step (what RecomputingDict.__getitem__ needs since 59cdf67 to find the rule again): the rule
+   object was produced by the empty strategy (q = -1), or by a strategy q the searcher APPLIES - one the queue hands
+   out (a strategy of `pack`), a verification strategy or a symmetry - on a class c0 that carried a label l0 in the
+   class database at the time of the call; c0 need not be the rule's parent (factory rules with a foreign parent) *)
+Definition applied_sid (q : Z) : Prop := q = -1 \/ In q pack \/ In q (t_ver T) \/ In q (t_sym T).
+Definition step_prov (x : hstep) : Prop :=
+  exists q c0 l0, applied_sid q /\ lbl (h_d x) c0 = Some l0 /\ In (h_r x) (cands T q c0).
+
 Definition Ghist (d : cdbT) (rs es : list key) (tr : list event) : Prop :=
   (mode =? 0) = true ->
   exists a l, add_hist_l T l a /\ b_cdb dstore a = d /\ d_keys (b_r dstore a) = rs /\ d_keys (b_e dstore a) = es /\
-              adds_of tr = map add_ev l /\ eqs_of tr = b_eq dstore a.
+              adds_of tr = map add_ev l /\ eqs_of tr = b_eq dstore a /\ Forall step_prov l.
 
 Lemma Ghist_frame : True -> forall d d' r e tr,
   WFd d -> WFd d' -> extends d d' -> EOK d -> EOK d' -> Ghist d r e tr -> Ghist d' r e tr.
 Proof.
-  intros _ d d' r e tr W W' X E E' H Hm. destruct (H Hm) as (a & l & Ha & Hd & Hr & He & Hadds & Heqs).
+  intros _ d d' r e tr W W' X E E' H Hm. destruct (H Hm) as (a & l & Ha & Hd & Hr & He & Hadds & Heqs & Hpv).
   exists (mkDB dstore d' (b_r dstore a) (b_e dstore a) (b_eq dstore a) (b_stop dstore a) 0), l.
   cbn [b_cdb b_r b_e b_eq]. csplit; auto.
   apply hl_env; auto. rewrite Hd. apply pres_of_truthful; auto.
@@ -138,7 +146,7 @@ Qed.
 
 Lemma Ghist_skip : True -> forall ev d r e tr, neutral ev = true -> Ghist d r e tr -> Ghist d r e (ev :: tr).
 Proof.
-  intros _ ev d r e tr Hn H Hm. destruct (H Hm) as (a & l & Ha & Hd & Hr & He & Hadds & Heqs).
+  intros _ ev d r e tr Hn H Hm. destruct (H Hm) as (a & l & Ha & Hd & Hr & He & Hadds & Heqs & Hpv).
   exists a, l. csplit; auto; destruct ev; simpl in *; auto; discriminate.
 Qed.
 
@@ -273,7 +281,7 @@ Hypothesis Hunary : sym_unary T. (* in-section *)
    strategy, in which case the model's rule object (RPlain) and its re-application (RVer) differ: excluded here *)
 Hypothesis Hfaith : forall sid0 c0 r, In r (rules_from_strategy T sid0 c0) -> twoway_faithful T r. (* in-section *)
 
-Lemma labelled_add_pre d sym start ends r : WFd d -> rule_good T r -> ProofsCore.labelled T d sym start ends r ->
+Lemma labelled_add_pre U d sym start ends r : WFd d -> rule_good T r -> ProofsCore.labelled T U d sym start ends r ->
   exists cs, add_pre T d start ends r cs /\ kind_ok T r /\ twoway_faithful T r.
 Proof.
   intros W G ((A & cs & B & D & E) & P). exists cs.
@@ -293,18 +301,35 @@ Proof.
     + apply (Hfaith sid0 c0 r Hin).
 Qed.
 
-Lemma Ghist_base (C : Prop) (GP : cdbT -> list key -> list key -> list event -> Prop) :
+(* the provenance the invariant carries (ProofsCore.prov with Proofs.used) is the provenance of the step *)
+Lemma labelled_step_prov (C : Prop) d sym start ends r cs : C -> rule_good T r ->
+  ProofsCore.labelled T (used T C pack) d sym start ends r -> step_prov (mkH d start ends r cs).
+Proof.
+  intros HC G ((A & _) & P). unfold step_prov. cbn [h_d h_r].
+  destruct P as [P|(sid0 & c0 & l0 & P1 & P2 & P3)].
+  - destruct G as [(_ & Hs & Ho)|(Hk & _)]; [|contradiction].
+    exists (-1), (r_parent r), start. split; [left; reflexivity|]. split; [exact A|].
+    destruct r as [sid p kd]. cbn [r_sid r_parent r_kind] in *. subst sid kd.
+    unfold cands. cbn [Z.eqb]. rewrite Ho. left; reflexivity.
+  - exists sid0, c0, l0. split; [|split; [exact P2|]].
+    + right. destruct (P3 HC) as [[H|H]|H]; auto.
+    + unfold cands. destruct (sid0 =? -1) eqn:E; [|exact P1].
+      apply Z.eqb_eq in E. subst sid0. unfold rules_from_strategy in P1. rewrite (strat_of_minus1 T) in P1. destruct P1.
+Qed.
+
+Lemma Ghist_base (C : Prop) (GP : cdbT -> list key -> list key -> list event -> Prop) : C ->
   (mode =? 0) = true -> forall s sym start ends r,
-  Inv T C GP s -> rule_good T r -> (running s = true -> ProofsCore.labelled T (cdb s) sym start ends r) ->
+  Inv T C GP s -> rule_good T r -> (running s = true -> ProofsCore.labelled T (used T C pack) (cdb s) sym start ends r) ->
   Gs Ghist s -> Gs Ghist (base_add T (emit (EvAdd start ends (r_sid r) (r_parent r)) s) start ends r).
 Proof.
-  intros Hm s sym start ends r I G Hl Hg. unfold Gs in *.
+  intros HCC Hm s sym start ends r I G Hl Hg. unfold Gs in *.
   destruct (running s) eqn:R.
   2:{ assert (emit (EvAdd start ends (r_sid r) (r_parent r)) s = s) as -> by (unfold emit; rewrite R; reflexivity).
       rewrite (dead_base_add s start ends r R). exact Hg. }
-  intros _. destruct (Hg Hm) as (a & l & Ha & Hd & Hr & He & Hadds & Heqs).
+  intros _. destruct (Hg Hm) as (a & l & Ha & Hd & Hr & He & Hadds & Heqs & Hpv).
   destruct I as (W & _).
-  destruct (labelled_add_pre (cdb s) sym start ends r W G (Hl eq_refl)) as (cs & Hpre & Hk & Hf).
+  destruct (labelled_add_pre _ (cdb s) sym start ends r W G (Hl eq_refl)) as (cs & Hpre & Hk & Hf).
+  pose proof (labelled_step_prov C (cdb s) sym start ends r cs HCC G (Hl eq_refl)) as Hsp.
   set (s0 := emit (EvAdd start ends (r_sid r) (r_parent r)) s).
   assert (running s0 = true /\ cdb s0 = cdb s /\ rstore s0 = rstore s /\ estore s0 = estore s /\
           trace s0 = EvAdd start ends (r_sid r) (r_parent r) :: trace s) as (R0 & Hc0 & Hr0 & He0 & Ht0).
@@ -334,9 +359,10 @@ Proof.
     destruct (isort cl) as [|e0 [|e1 t]]; [|destruct (r_two_way T r)|]; cbv zeta in R'; rewrite Hdead in R'; discriminate. }
   destruct HC as (R1 & _ & ->). destruct (HT R1) as (HA & HE).
   destruct (gen_store dstore d_set d_mem d_del start (isort kept) (r_sid r) (r_two_way T r) (b_r dstore a) (b_e dstore a)) as [r' e'].
-  cbn [b_eq]. split.
+  cbn [b_eq]. split; [|split].
   - rewrite HA, Ht0. simpl. rewrite Hadds. reflexivity.
   - rewrite HE, Ht0. simpl. rewrite Heqs. reflexivity.
+  - constructor; [exact Hsp|exact Hpv].
 Qed.
 
 (* ------------------------------------------------------------------- the theorem *)
@@ -348,8 +374,20 @@ Theorem search_hist_inv F dl ev ans start ps : packets_in pack ps ->
 Proof.
   intros Hps.
   apply (run_search_inv T mode True pack Ghist Ghist_frame Ghist_skip Ghist_forest
-           (fun _ Hm => Ghist_base True Ghist Hm) Ghist_init (fun _ => Hpe) (fun _ => Hsym)).
+           (fun _ Hm => Ghist_base True Ghist Logic.I Hm) Ghist_init (fun _ => Hpe) (fun _ => Hsym)).
   intros _. exact Hps.
+Qed.
+
+(* ... with the provenance of every step (step_prov): used by C14_search_stored_rules_handed_back_x *)
+Theorem search_gives_add_hist_prov F dl ev ans start ps : packets_in pack ps -> (mode =? 0) = true ->
+  let s := run_search T mode F dl ev ans start ps in
+  exists a l, add_hist_l T l a /\ b_cdb dstore a = cdb s /\
+              d_keys (b_r dstore a) = rstore s /\ d_keys (b_e dstore a) = estore s /\
+              adds_of (trace s) = map add_ev l /\ eqs_of (trace s) = b_eq dstore a /\
+              EOK (cdb s) /\ Forall step_prov l.
+Proof.
+  intros Hps Hm s. destruct (search_hist_inv F dl ev ans start ps Hps) as (_ & E & _ & Hg).
+  destruct (Hg Logic.I Hm) as (a & l & H). exists a, l. destruct H as (A & B & D & E1 & E2 & E3 & E4). csplit; auto.
 Qed.
 
 Theorem search_gives_add_hist F dl ev ans start ps : packets_in pack ps -> (mode =? 0) = true ->
@@ -359,8 +397,8 @@ Theorem search_gives_add_hist F dl ev ans start ps : packets_in pack ps -> (mode
               adds_of (trace s) = map add_ev l /\ eqs_of (trace s) = b_eq dstore a /\
               EOK (cdb s).
 Proof.
-  intros Hps Hm s. destruct (search_hist_inv F dl ev ans start ps Hps) as (_ & E & _ & Hg).
-  destruct (Hg Logic.I Hm) as (a & l & H). exists a, l. destruct H as (A & B & D & E1 & E2 & E3). csplit; auto.
+  intros Hps Hm s. destruct (search_gives_add_hist_prov F dl ev ans start ps Hps Hm) as (a & l & H).
+  exists a, l. destruct H as (A & B & D & E1 & E2 & E3 & E4 & _). csplit; auto.
 Qed.
 
 End SearchHist.
